@@ -416,3 +416,9 @@ def run(ctx):
     r5_fetch_skeleton(ctx)
     r6_handle_linearity(ctx)
     rB_heap_backend(ctx)
+
+
+def thorough(ctx):
+    from .engine.witness import check_witnesses
+    res = check_witnesses(ctx, 'C01.R6', ('W1',), ('W1CancelTwice','W1CancelTwiceTwin','W1bHandleClone','W1bHandleCloneTwin'))
+    return {'witnesses': res}
